@@ -238,6 +238,13 @@ def export_ir(obj, depth=0, out=None):
     if not isinstance(obj, ir.Node):
         out.append(f'{depth} ?{type(obj).__name__}')
         return out
+    if isinstance(obj, ir.Comment) and not (obj.text or '').strip():
+        out.append('BLANK')          # an empty line
+        return out
+    if isinstance(obj, ir.Pragma):
+        # the text of a pragma is compared modulo blanks (the backend re-assembles it from its parameters)
+        out.append(f'{depth} Pragma keyword={str(obj.keyword).lower()} content=' + _ascii(''.join(str(obj.content or '').split())))
+        return out
     attrs, kids = [], []
     for f in dc_fields(obj):
         if f.name in IR_EXEMPT_FIELDS or f.name.startswith('_'):
